@@ -31,10 +31,12 @@ func init() {
 	ListType.Dict["extend"] = MustNewMethod("extend", func(self Object, args Tuple) (Object, error) {
 		listSelf := self.(*List)
 		if len(args) != 1 {
-			return nil, ExceptionNewf(TypeError, "append() takes exactly one argument (%d given)", len(args))
+			return nil, ExceptionNewf(TypeError, "extend() takes exactly one argument (%d given)", len(args))
 		}
-		if oList, ok := args[0].(*List); ok {
-			listSelf.Items = append(listSelf.Items, oList.Items...)
+		// Any iterable will do
+		err := listSelf.ExtendSequence(args[0])
+		if err != nil {
+			return nil, err
 		}
 		return NoneType{}, nil
 	}, 0, "extend([item])")
@@ -305,11 +307,12 @@ func (a *List) M__radd__(other Object) (Object, error) {
 }
 
 func (a *List) M__iadd__(other Object) (Object, error) {
-	if b, ok := other.(*List); ok {
-		a.Extend(b.Items)
-		return a, nil
+	// list += iterable extends the list in place, unlike list + list
+	err := a.ExtendSequence(other)
+	if err != nil {
+		return nil, err
 	}
-	return NotImplemented, nil
+	return a, nil
 }
 
 func (l *List) M__mul__(other Object) (Object, error) {
